@@ -391,7 +391,7 @@ def c05(tier, rng):
                 s.poll(i), s.deliver(M.pubcomp(pid)), s.poll(i)
             s.deliver(M.pingresp()), s.poll(other)
             out.append(case("crosstype-%s-%s" % (kind, wrong), s.script(), ["crosstype"]))
-    return out + r6("C05") + r7("C05")
+    return out + r6("C05") + r7("C05") + r8("C05")
 
 
 # ---- C06 ------------------------------------------------------------------------------------------
@@ -515,7 +515,7 @@ def c06(tier, rng):
     c6 = case("blocked-disc", s.script(), ["blocked-writer"])
     c6["model"] = False
     out.append(c6)
-    return out + r6("C06") + r7("C06")
+    return out + r6("C06") + r7("C06") + r8("C06")
 
 
 # ---- C07 ------------------------------------------------------------------------------------------
@@ -665,7 +665,7 @@ def c07(tier, rng):
         out.append(walk(rng, rng.choice([30, 60]) if tier == "quick" else rng.choice([60, 250]),
                         {"kinds": ["sub", "sub", "unsub", "pub1", "ping"], "streams": True, "drops": k % 2 == 0},
                         "walk%d" % k))
-    return out + r6("C07") + r7("C07")
+    return out + r6("C07") + r7("C07") + r8("C07")
 
 
 # ---- C08 ------------------------------------------------------------------------------------------
@@ -757,7 +757,7 @@ def c08(tier, rng):
         out.append(walk(rng, 40 if tier == "quick" else 150,
                         {"kinds": ["sub", "pub1", "ping"], "streams": True, "inbound": True, "drops": True,
                          "redeliver": True}, "walk%d" % k))
-    return out + r6("C08") + r7("C08")
+    return out + r6("C08") + r7("C08") + r8("C08")
 
 
 # ---- C09 ------------------------------------------------------------------------------------------
@@ -870,7 +870,7 @@ def c09(tier, rng):
         for _ in range(9):
             st.ev("pollstream %d" % a)
         out.append(case("inbound-beyond-R%d" % rm, st.script(), ["rm-inbound"]))
-    return out + r6("C09") + r7("C09")
+    return out + r6("C09") + r7("C09") + r8("C09")
 
 
 # ---- C10 ------------------------------------------------------------------------------------------
@@ -1031,7 +1031,7 @@ def c10(tier, rng):
         out.append(walk(rng, rng.choice([30, 60]) if tier == "quick" else rng.choice([80, 300]),
                         {"kinds": ["pub0", "pub1", "pub2", "pub1", "pub2", "ping"], "fail": 0.35,
                          "rmax": rng.choice([1, 2, 3, 5])}, "walk%d" % k))
-    return out + r6("C10") + r7("C10")
+    return out + r6("C10") + r7("C10") + r8("C10")
 
 
 # ---- C11 ------------------------------------------------------------------------------------------
@@ -1142,7 +1142,7 @@ def c11(tier, rng):
     c = case("subscribes-65600", S().script() + " ; spinsub 65600", ["subid-wrap16"], release=False)
     c["model"] = False
     out.append(c)
-    return out + r6("C11") + r7("C11")
+    return out + r6("C11") + r7("C11") + r8("C11")
 
 
 # ---- C12 ------------------------------------------------------------------------------------------
@@ -1197,7 +1197,7 @@ def c12(tier, rng):
                     out.append(case("c%dw" % n, wm + " ; " + s.script(), [kind, "partial-writes"], L=L, M=Mx, kind=kind))
                 n += 1
     out += c12_extra()
-    return out + r6("C12") + r7("C12")
+    return out + r6("C12") + r7("C12") + r8("C12")
 
 
 # ---- C13 ------------------------------------------------------------------------------------------
@@ -1478,7 +1478,7 @@ def c13(tier, rng):
         s = mk()
         s.deliver(M.pingresp()), s.deliver(M.puback(77)), s.deliver(M.publish(b"z", b"z"))
         out.append(case("nocause-" + name, s.script(), ["nocause"]))
-    return out + r6("C13") + r7("C13")
+    return out + r6("C13") + r7("C13") + r8("C13")
 
 
 # ---- C14 ------------------------------------------------------------------------------------------
@@ -1568,7 +1568,7 @@ def c14(tier, rng):
     for k in range(n_cases(tier, 80, 2000)):
         out.append(walk(rng, rng.choice([10, 25, 50]) if tier == "quick" else rng.choice([20, 60, 200]),
                         {"streams": True, "hold": True, "dropctx_at_end": True, "fail": 0.1}, "walk%d" % k))
-    return out + r6("C14") + r7("C14")
+    return out + r6("C14") + r7("C14") + r8("C14")
 
 
 # ---- C15 ------------------------------------------------------------------------------------------
@@ -1740,7 +1740,7 @@ def c15(tier, rng):
         out.append(walk(rng, rng.choice([20, 50]) if tier == "quick" else rng.choice([50, 200]),
                         {"drops": True, "streams": True, "hold": k % 2 == 0, "fail": 0.2,
                          "rmax": rng.choice([None, 2, 4]), "no_k2": True}, "walk%d" % k))
-    return out + r6("C15") + r7("C15")
+    return out + r6("C15") + r7("C15") + r8("C15")
 
 
 # ---- C16 ------------------------------------------------------------------------------------------
@@ -1830,7 +1830,7 @@ def c16(tier, rng):
         # wmode must come first so that CONNECT is written under it
         script = " ; ".join(new)
         out.append(case("walk%d-m%d" % (k, mode), script, c["tags"] + ["mode%d" % mode]))
-    return out + r6("C16") + r7("C16")
+    return out + r6("C16") + r7("C16") + r8("C16")
 
 
 # ---- C17 ------------------------------------------------------------------------------------------
@@ -2030,7 +2030,7 @@ def c17(tier, rng):
         for i in (a, b2, c3):
             s.poll(i)
         out.append(case("resume-under-R%d" % rm2, s.script(), ["resume-rm"]))
-    return out + r6("C17") + r7("C17")
+    return out + r6("C17") + r7("C17") + r8("C17")
 
 
 # ---- round 6 --------------------------------------------------------------------------------------------------------------
@@ -2671,4 +2671,73 @@ def r7(pid):
             st.ev("markdisc %d" % elapsed), st.ev("reconnect"), st.ev(("connect sei=%d" % csei) if csei else "connect"), st.deliver(M.connack(1, 0, [(17, asei)])), st.ev("run")
             st.poll(a), st.poll(b_), st.deliver(M.puback(1)), st.deliver(M.pubrec(2)), st.poll(a), st.poll(b_)
             out.append(case("connack-interval-%d-%d-%d" % (csei, asei, elapsed), st.script(), ["connack-sei"]))
+    return out
+
+
+# ---- round 8 --------------------------------------------------------------------------------------------------------------
+def r8(pid):
+    out = []
+    if pid in ("C07", "C09"):
+        # RETAIN says where the message came from, nothing about whether it was seen: a retained QoS 2 PUBLISH is recorded and
+        # recognised like any other
+        st = S()
+        a = st.sub(b"a")
+        st.poll(a), st.deliver(M.suback(1)), st.poll(a), st.ev("tostream %d" % a)
+        st.deliver(M.publish(b"a", b"m1", 2, 7, 0, 1, ps=[(11, 1)])), st.deliver(M.publish(b"a", b"m1", 2, 7, 1, 1, ps=[(11, 1)]))
+        st.deliver(M.pubrel(7)), st.deliver(M.publish(b"a", b"m2", 2, 7, 0, 1, ps=[(11, 1)])), st.deliver(M.publish(b"a", b"m2", 2, 7, 1, 0, ps=[(11, 1)]))
+        for _ in range(3):
+            st.ev("pollstream %d" % a)
+        out.append(case("retained-qos2-redelivered", st.script(), ["retained-q2"]))
+        # a PUBREL repeated (its PUBCOMP was lost) or for an identifier that is not recorded concerns that identifier only
+        st = S()
+        a = st.sub(b"a")
+        st.poll(a), st.deliver(M.suback(1)), st.poll(a), st.ev("tostream %d" % a)
+        st.deliver(M.publish(b"a", b"m7", 2, 7, ps=[(11, 1)])), st.deliver(M.pubrel(7)), st.deliver(M.publish(b"a", b"m8", 2, 8, ps=[(11, 1)]))
+        st.deliver(M.publish(b"a", b"m9", 2, 9, ps=[(11, 1)])), st.deliver(M.pubrel(7)), st.deliver(M.pubrel(1234))
+        st.deliver(M.publish(b"a", b"m8", 2, 8, 1, ps=[(11, 1)])), st.deliver(M.publish(b"a", b"m9", 2, 9, 1, ps=[(11, 1)]))
+        st.deliver(M.pubrel(8)), st.deliver(M.publish(b"a", b"n8", 2, 8, ps=[(11, 1)])), st.deliver(M.pubrel(9)), st.deliver(M.pubrel(8))
+        for _ in range(5):
+            st.ev("pollstream %d" % a)
+        out.append(case("repeated-pubrel-among-open-exchanges", st.script(), ["retained-q2"]))
+    if pid in ("C07", "C02"):
+        # a PUBLISH that arrives while a SUBSCRIBE - this one or another - is still unanswered is delivered like any other
+        st = S()
+        a = st.sub(b"a")
+        st.poll(a)
+        st.deliver(M.publish(b"a", b"retained-early", 1, 5, 0, 1, ps=[(11, 1), (3, b"text/plain"), (38, (b"k", b"v"))]))
+        st.deliver(M.suback(1)), st.poll(a), st.ev("tostream %d" % a), st.ev("pollstream %d" % a)
+        b_ = st.sub(b"b")
+        st.poll(b_)
+        st.deliver(M.publish(b"a", b"while-another-subscribe-is-pending", 0, None, ps=[(11, 1), (8, b"reply/to")])), st.ev("pollstream %d" % a)
+        st.deliver(M.suback(2)), st.poll(b_), st.ev("pollstream %d" % a)
+        out.append(case("publish-while-subscribe-pending", st.script(), ["sub-pending"]))
+    if pid == "C06":
+        # Content Type and Response Topic of different sizes, alone and together
+        for k, extra in enumerate(("ct=%s" % hx(b"text/plain"), "rt=%s" % hx(b"r"), "ct= rt=%s" % hx(b"replies/here"), "ct=%s rt=%s" % (hx(b"a"), hx(b"bb")),
+                                   "rt=%s ct=%s cd=%s" % (hx(b"x/y/z"), hx(b"application/octet-stream"), hx(b"id")))):
+            for q in (1, 2):
+                st = S()
+                x = st.pub(q=q, topic=b"t/%d" % k, payload=b"payload", extra=extra + " ret=1")
+                st.poll(x)
+                y = st.pub(q=0, payload=b"next")
+                st.poll(y), st.poll(y)
+                st.deliver(M.puback(1) if q == 1 else M.pubrec(1)), st.poll(x)
+                if q == 2:
+                    st.deliver(M.pubcomp(1)), st.poll(x)
+                out.append(case("content-type-response-topic-%d-q%d" % (k, q), st.script(), ["ct-rt"]))
+    if pid == "C15":
+        # a QoS 2 publish abandoned in the very poll that handed its PUBREL over, before the Context got to it: the PUBREL goes
+        # out, its PUBCOMP frees the slot
+        for R in (1, 2):
+            st = S(connack_props=[(33, R)])
+            st.ev("clone 0 1")
+            x = st.pub(q=2, payload=b"gone-between")
+            st.poll(x), st.deliver(M.pubrec(1)), st.ev("hold"), st.poll(x), st.ev("dropop %d" % x), st.ev("release")
+            st.deliver(M.pubcomp(1)), st.freed()
+            y = [st.pub(q=1, payload=b"other-%d" % k, handle=1) for k in range(R)]
+            for i in y:
+                st.poll(i), st.poll(i)
+            for i in y:
+                st.deliver(M.puback(st.ops[i]["pid"])), st.poll(i)
+            out.append(case("abandoned-with-pubrel-queued-R%d" % R, st.script(), ["abandoned", "pubrel-queued"]))
     return out
